@@ -29,7 +29,7 @@ SPEC = "lifecycle/Concurrent.tla"
 INVARIANTS = ["NoActorError", "NoTornObservation", "ReadsSeeCompletedWrites", "ListingSane", "CheckSane", "FinalSequential"]
 SWITCHES = ["MkdirExistOk", "SaveIfAbsent", "AtomicWrite", "ValidateAfterWrite", "ListTolerant"]
 TWO = ["init_same", "init_same_nows", "init_diff", "init_populated", "init_vs_list", "list_nows",
-       "doc_writers", "doc_writers_fresh", "reader_sees", "init_doc_mix", "init_same_check", "init_diff_check"]
+       "doc_writers", "doc_writers_fresh", "reader_sees", "reader_sees_big", "doc_writers_big", "init_doc_mix", "init_same_check", "init_diff_check"]
 THREE = ["init_same_3", "doc_3", "mixed_3"]
 ALL_ACTIONS = ["CkList", "CkOpen", "CkRead", "CkIsdir", "GtBegin", "PjStat", "PjStat2", "PjMkdir", "PjEexist", "InOpen", "InRead", "MkStat", "MkStatWs", "MkMkdirWs", "MkEexistWs",
                "MkMkdir", "MkEexist", "SvStat", "SvCreat", "SvWrite", "SvRename", "VaOpen", "VaRead", "DvStat", "DcOpen",
@@ -100,6 +100,27 @@ class Names:
         return rel, "-"
 
 
+# "big" scenarios: every document value is materialised as a string of >= 16 KiB, all of the same length, so that successive
+# versions of a document have the same serialized size; translation only (the specification's values are the short ones)
+PAD = "~" + "x" * 20000
+COARSE_NS = 1_700_000_000 * 10**9        # the whole-second time stamp every completed document file gets (coarse-timestamp fs)
+
+
+def enc(v, big):
+    return v + PAD if big else v
+
+
+def dec(x):
+    return x[:-len(PAD)] if isinstance(x, str) and x.endswith(PAD) else x
+
+
+def coarse_stamp(path):
+    try:
+        os.utime(path, ns=(COARSE_NS, COARSE_NS))
+    except OSError:
+        pass
+
+
 def tok_bytes(b, kind, j):
     """content token of a file: ('empty',) | ('full', frozenset of pairs) | ('other', text)"""
     if b == b"":
@@ -113,7 +134,7 @@ def tok_bytes(b, kind, j):
     if kind == "sp":
         return ("full", frozenset({("sp", j)})) if v == sp_of(j) else ("other", repr(b[:60]))
     try:
-        return ("full", frozenset((k, x) for k, x in v.items()))
+        return ("full", frozenset((k, dec(x)) for k, x in v.items()))
     except TypeError:
         return ("other", repr(b[:60]))
 
@@ -200,7 +221,7 @@ def parse_describe(stdout):
         "script": {p: [dict(o) for o in ops] for p, ops in fn(d["script"]).items()},
         "ws": d["ws"], "jobs": sorted(d["jobs"]), "jobs0": sorted(d["jobs0"]),
         "doc0": {j: sorted(v) for j, v in fn(d["doc0"]).items()}, "hasdoc0": sorted(d["hasdoc0"]),
-        "pre": sorted(d["pre"]), "requested": sorted(d["requested"]),
+        "pre": sorted(d["pre"]), "big": bool(d["big"]), "requested": sorted(d["requested"]),
         "seqdoc": {j: sorted(v) for j, v in fn(d["seqdoc"]).items()}, "hasdoc": sorted(d["hasdoc"]), "wsfinal": d["wsfinal"],
     }
 
@@ -362,7 +383,7 @@ def _mutate_dependency():
         cj.JSONCollection._save_to_resource = _save_shared_tmp
 
 
-def _make_actor(script, pre):
+def _make_actor(script, pre, big=False):
     def prelude(name, root):
         import signac
         _mutate_dependency()
@@ -387,10 +408,10 @@ def _make_actor(script, pre):
                 elif op == "init":
                     job(o["j"]).init()
                 elif op == "set":
-                    job(o["j"]).doc[o["k"]] = o["v"]
+                    job(o["j"]).doc[o["k"]] = enc(o["v"], big)
                 elif op == "get":
                     sched.checkpoint("get", o["j"])        # the read begins (a scheduling point of the specification)
-                    results.append(["get", o["j"], dict(job(o["j"]).doc())])
+                    results.append(["get", o["j"], {k: dec(v) for k, v in dict(job(o["j"]).doc()).items()}])
                 elif op == "len":
                     results.append(["len", len(project)])
                 elif op == "iter":
@@ -443,7 +464,8 @@ def arrange(root, desc, names):
             f.write(json.dumps(sp_of(j)).encode())
         if j in desc["hasdoc0"]:
             with open(os.path.join(d, FN_DOC), "wb") as f:
-                f.write(json.dumps(dict(desc["doc0"][j])).encode())
+                f.write(json.dumps({k: enc(v, desc.get("big")) for k, v in dict(desc["doc0"][j]).items()}).encode())
+            coarse_stamp(os.path.join(d, FN_DOC))
 
 
 def run_schedule(desc, path_nodes, schedule, workdir, graph=None, start=0, tamper=None, keep_trace=False, pre_nodes=None):
@@ -456,7 +478,7 @@ def run_schedule(desc, path_nodes, schedule, workdir, graph=None, start=0, tampe
     res = {"div": [], "viol": [], "executed": [], "covered": [], "steps": 0, "final": None}
     try:
         arrange(root, desc, names)
-        prelude, actor = _make_actor(desc["script"], set(desc["pre"]))
+        prelude, actor = _make_actor(desc["script"], set(desc["pre"]), bool(desc.get("big")))
         procs = sorted(desc["script"])
 
         def mk(name):
@@ -535,6 +557,9 @@ def run_schedule(desc, path_nodes, schedule, workdir, graph=None, start=0, tampe
                         following, expect, oi = False, None, k + 1
                 # reads: where does the read start (for 'later reads see completed writes')
                 out = run.grant(p)
+                if lab[0] == "replace" and lab[1] == "doc" and not (out or {}).get("err"):
+                    # coarse time stamps: every completed version of a document carries the same whole-second mtime
+                    coarse_stamp(os.path.join(root, "workspace", names.id[lab[2]], FN_DOC))
                 res["executed"].append(p)
                 res["steps"] += 1
                 observe()
@@ -632,7 +657,7 @@ def run_schedule(desc, path_nodes, schedule, workdir, graph=None, start=0, tampe
             final["ids"] = [names.job.get(i, i) for i in ids]
             for i in ids:
                 try:
-                    final["docs"][names.job.get(i, i)] = dict(proj.open_job(id=i).doc())
+                    final["docs"][names.job.get(i, i)] = {k: dec(v) for k, v in dict(proj.open_job(id=i).doc()).items()}
                 except Exception as e:  # noqa
                     final["docs"][names.job.get(i, i)] = "%s: %s" % (type(e).__name__, str(e)[:120])
         else:
@@ -840,7 +865,7 @@ def random_scenario(rnd, n):
             else:
                 ops.append(["iter", "-", "-", "-"])
         procs[p] = ops
-    return {"name": "rnd%02d" % n, "def": {"procs": procs, "ws": ws, "jobs": jobs, "jobs0": jobs0, "doc0": doc0, "pre": pre}}
+    return {"name": "rnd%02d" % n, "def": {"procs": procs, "ws": ws, "jobs": jobs, "jobs0": jobs0, "doc0": doc0, "pre": pre, "big": rnd.random() < 0.2}}
 
 
 def replay_counterexample(ctx, name, desc, r):
@@ -1069,7 +1094,7 @@ _AUDIT_SCRIPT = {"scenario": "audit", "script": {"p1": [{"op": "proj", "j": "-",
                                                         {"op": "set", "j": "j2", "k": "b", "v": "2"}, {"op": "init", "j": "j1", "k": "-", "v": "-"},
                                                         {"op": "len", "j": "-", "k": "-", "v": "-"}, {"op": "iter", "j": "-", "k": "-", "v": "-"}]},
                  "ws": False, "jobs": ["j1", "j2"], "jobs0": [], "doc0": {"j1": [], "j2": []}, "hasdoc0": [], "pre": [], "requested": ["j1", "j2"],
-                 "seqdoc": {"j1": [["a", "1"]], "j2": [["b", "2"]]}, "hasdoc": ["j1", "j2"], "wsfinal": True}
+                 "seqdoc": {"j1": [["a", "1"]], "j2": [["b", "2"]]}, "hasdoc": ["j1", "j2"], "wsfinal": True, "big": False}
 
 
 def _audit_child(out_fn, workdir):
